@@ -144,6 +144,66 @@ func runC10(c *core.Ctx) {
 	checkReplyCollection(c, "R10.6")
 	c.Rule("R10.7", "code that runs on a goroutine of its own (not under the connection loop's recover) never dereferences a reply header that is nil when the header read failed: such a panic terminates the whole process", 2)
 	checkNilHeaderOffLoop(c, "R10.7")
+	c.Rule("R10.8", "what a handler or responder flushes reaches the socket: no buffered writer is made the sink of another buffered writer (bufio.NewWriter / (*bufio.Writer).Reset given a bufio.Writer) unless the inner one is flushed too - otherwise the next command's request sits in the inner buffer for ever and the client request that waits for its reply never terminates", 5)
+	checkNestedWriters(c, "R10.8")
+}
+
+// checkNestedWriters (R10.8): every construction or re-targeting of a bufio.Writer on the request path (backend
+// handlers, connection setup, responders) is one obligation. The sink must not be another *bufio.Writer that nobody
+// flushes; the same for readers is harmless (double buffering) and not checked.
+func checkNestedWriters(c *core.Ctx, rule string) {
+	isBufWriter := func(t types.Type) bool {
+		return types.TypeString(t, nil) == "*bufio.Writer"
+	}
+	for _, rel := range []string{"handlers/memcached", "handlers/inmem", "server", "protocol", "orcas"} {
+		for _, fn := range c.P.RepoFuncs(rel) {
+			counts := map[string]int{}
+			ssax.Instrs(fn, func(ins ssa.Instruction) {
+				cc := ssax.CallOf(ins)
+				if cc == nil {
+					return
+				}
+				var sink ssa.Value
+				switch ssax.CalleeName(cc) {
+				case "bufio.NewWriter", "bufio.NewWriterSize":
+					sink = cc.Args[0]
+				case "(*bufio.Writer).Reset":
+					sink = cc.Args[1]
+				default:
+					return
+				}
+				key := ordinalKey(counts, core.FuncName(fn)+"#writer-sink")
+				var inner ssa.Value
+				for _, d := range ssax.Defs(sink) {
+					d = ssax.Unwrap(d)
+					if mi, ok := d.(*ssa.MakeInterface); ok {
+						d = ssax.Unwrap(mi.X)
+					}
+					if isBufWriter(d.Type()) {
+						inner = d
+					}
+				}
+				if inner == nil {
+					c.OK(rule, key, c.P.Pos(ins.Pos()), "the writer's sink is not a buffered writer ("+types.TypeString(sink.Type(), nil)+")")
+					return
+				}
+				// is the inner writer flushed by anyone who can name it?
+				flushed := false
+				if refs := inner.Referrers(); refs != nil {
+					for _, r := range *refs {
+						if rc := ssax.CallOf(r); rc != nil && ssax.CalleeName(rc) == "(*bufio.Writer).Flush" {
+							flushed = true
+						}
+					}
+				}
+				if flushed {
+					c.Undecided(rule, key, c.P.Pos(ins.Pos()), "a bufio.Writer is given another bufio.Writer as its sink; the inner one is flushed somewhere, but that this happens after every flush of the outer writer is not decided")
+					return
+				}
+				c.Violate(rule, key, c.P.Pos(ins.Pos()), "a bufio.Writer is given another bufio.Writer as its sink and nothing flushes the inner one: Flush on the outer writer only moves the bytes into the inner buffer, so every request written after this point never reaches the socket and the caller waits for a reply for ever")
+			})
+		}
+	}
 }
 
 // runR101 is shared by C02 (R2.3) and C10 (R10.1).
